@@ -307,6 +307,9 @@ C06_Together ==
 C06_TogetherWhenCallsFail ==
   (Quiet /\ failed) => \A i \in Dec : (IsVictimEvict(i) /\ EvictOK(i) /\ D[i].mdact \in {"reclaim", "preempt"}) =>
      \E k \in Dec : (BindAny(k) \/ Piped(k)) /\ D[k].stmt = D[i].stmt /\ JobOf(D[k].p) = D[i].pre
+\* the node a victim was taken from (where it ran, or where an earlier decision of the cycle put it)
+NodeOfVictim(i) == LET b == {k \in 1..(i - 1) : (BindOK(k) \/ Piped(k)) /\ D[k].p = D[i].p} IN IF b = {} THEN S[D[i].p].node ELSE D[Max(b)].n
+NoLimits == \A q \in Queues : Q(q).gl = -1 /\ Q(q).cl = -1 /\ Q(q).ml = -1
 \* consolidation evicts a pod only if the same statement re-places it on another node
 C06_Consolidation ==
   (Quiet /\ ~failed) => \A i \in Dec : (IsVictimEvict(i) /\ D[i].mdact = "consolidation") =>
@@ -461,6 +464,29 @@ IdleGpus(n) == N(n).gpus - DevicesUsed(n) - Sum(PipedOn(n), LAMBDA i : Whole(D[i
 Unconstrained(p) == /\ DOMAIN P(p).sel = {} /\ DOMAIN P(p).affIn = {} /\ DOMAIN P(p).affNot = {}
                     /\ Len(P(p).podAff) = 0 /\ Len(P(p).podAnt) = 0
 UsableNode(n) == N(n).ready = 1 /\ N(n).unsched = 0 /\ Len(N(n).taints) = 0 /\ InPool(n)
+
+\* C06 (only to place a workload), the room of a victim: the solver evicts every accumulated potential victim, places the
+\* claimant and then re-places the victims one by one - a victim whose own room is still there returns into it (it is
+\* un-evicted). So in a plain cluster (whole-GPU pods, nothing but GPUs scarce, no constraints, no limits) a single-pod
+\* victim that stays evicted lost its room: what is left on its node after the statement is smaller than the victim.
+\* (A pod evicted by an attempt that the solver abandoned, on a node the solution does not need, keeps its room.)
+PlainCluster ==
+  /\ \A p \in Pods : Unconstrained(p) /\ ~IsSharing(p) /\ P(p).gpu > 0 /\ Len(P(p).tols) = 0
+  /\ \A n \in Nodes : /\ UsableNode(n)
+                       /\ Sum(Pods, EffCpu) <= N(n).cpu /\ Sum(Pods, LAMBDA p : P(p).mem) <= N(n).mem
+                       /\ 2 * Cardinality(Pods) <= N(n).pods
+  /\ \A j \in Jobs : Len(J(j).subs) = 0 /\ J(j).topo = ""
+  /\ (HasExt => ExtNames = {})
+HoldsAfter(p, e, n) == LET x == LastRel(p, e) IN IF x = 0 THEN (S[p].st \in AllocSt /\ S[p].node = n) ELSE (~EvictOK(x) /\ D[x].n = n)
+RoomAfter(n, e) == N(n).gpus - Sum({p \in Pods : HoldsAfter(p, e, n)}, Whole)
+EndOfStmt(i) == Max({k \in Dec : D[k].stmt = D[i].stmt /\ D[k].act = D[i].act /\ \A m \in Min2(i, k)..Max2(i, k) : D[m].act = D[i].act})
+C06_VictimRoomTaken ==
+  (Quiet /\ ~failed /\ NoLimits /\ PlainCluster) =>
+    \A i \in Dec : (IsVictimEvict(i) /\ EvictOK(i) /\ D[i].mdact \in {"reclaim", "preempt"} /\ D[i].stmt # 0
+                      /\ Cardinality(PodsOf(JobOf(D[i].p))) = 1 /\ LastRel(D[i].p, EndOfStmt(i)) = i /\ NodeOfVictim(i) \in Nodes) =>
+       RoomAfter(NodeOfVictim(i), EndOfStmt(i)) < Whole(D[i].p)
+\* the same fact read as C13: what an abandoned (rolled back) node attempt of the solver evicted does not reach the cluster
+C13_AbandonedAttemptKeepsNoEviction == C06_VictimRoomTaken
 \* the pods the scheduler has to place to start job j: its first `min` pods (identical template)
 FirstK(S_, k) == {p \in S_ : Cardinality({x \in S_ : x < p}) < k}
 TasksOf(j) == FirstK(PodsOf(j), J(j).min)
